@@ -24,6 +24,8 @@ pub enum Key {
     Lf,
     /// a single raw byte
     Raw(u8),
+    /// a byte sequence that must be ignored as a whole (CSI without a meaning, C0 control, lone ESC)
+    Ignored(&'static [u8]),
 }
 
 impl Key {
@@ -39,6 +41,7 @@ impl Key {
             Key::Cr => vec![b'\r'],
             Key::Lf => vec![b'\n'],
             Key::Raw(b) => vec![*b],
+            Key::Ignored(b) => b.to_vec(),
         }
     }
     pub fn is_enter(&self) -> bool {
